@@ -117,6 +117,75 @@ def _sig(prop, m):
     return "%s:%s:%s" % (prop, m["kind"], C.sha256_str(json.dumps(inp, sort_keys=True))[:12])
 
 
+MC_PROPS = {"C01", "C02", "C07", "C08", "C11", "C25", "C30", "C31"}
+
+
+def mc_part(prop, tier, seed, out):
+    """MCInterp (bounded self-composition model, TLC-checked invariants = the properties on the specification) and
+    replay of every enumerated (program, configuration, budget) into run_program.  Programs on which the
+    implementation disagrees with the specification are ESCALATED: re-recorded as the variants of all relational
+    profiles and decided by TraceRun.tla, so the verdict is again a relation on observed outcomes."""
+    from engines import mcinterp
+    mc = mcinterp.check_mc(tier, 1)       # the enumerated universe does not depend on the check's seed
+    out.states += mc["states"]
+    out.transitions += mc["transitions"]
+    out.traces += mc["cases"]
+    out.extra["mcinterp_programs"] = mc["programs"]
+    out.extra["mcinterp_cases"] = mc["cases"]
+    out.extra["mcinterp_invariants"] = mc["invariants"]
+    if prop == "C01":
+        ref = mcinterp.check_ref(tier, 1)
+        out.states += ref["states"]
+        out.transitions += ref["transitions"]
+        out.extra["refeval_programs_agreeing"] = ref["agree_ok"] + ref["agree_err"]
+    mism = mc["mismatches"]
+    if not mism:
+        return
+    # conformance of the default-flag classic runs is C01's own clause
+    progs = {}
+    for m in mism:
+        c = m["case"]
+        if prop == "C01" and c.get("run") == "base" and not c["flags"]:
+            v = C.Violation(prop, "enumerated program: " + m["text"], {"mismatch": {"case": c, "obs": m["obs"]}})
+            v.signature = "C01:" + m["signature"]
+            out.violations.append(v)
+        key = json.dumps([c["prog"], c["env"]], sort_keys=True)
+        progs.setdefault(key, {"prog": c["prog"], "env": c["env"], "flags": []})
+    if prop == "C01":
+        return
+    work = os.path.join(C.WORK, "run")
+    os.makedirs(work, exist_ok=True)
+    hb = C.build_harness("default", ["run"])["run"]
+    plist = list(progs.values())[:150]
+    variants = []
+    for base_flags in ([], ["NEW_COST_MODEL"]):
+        variants += [dict(p, flags=base_flags) for p in plist]
+    inp = os.path.join(work, "esc-in-%d.ndjson" % os.getpid())
+    with open(inp, "w") as f:
+        for p in variants:
+            f.write(json.dumps(p) + "\n")
+    trace = os.path.join(work, "esc-%d.ndjson" % os.getpid())
+    C.run([hb, "escalate", "--in", inp, "--out", trace], timeout=1800)
+    nlines = sum(1 for _ in open(trace))
+    res = C.run_tlc("TraceRun", workers=1, env={"TRACE": trace}, deque=True, timeout=5400, name="TraceRun-esc", xmx="3g")
+    C.tlc_ok_or_raise(res, "TraceRun(escalation)")
+    done = res.tagged("TRACE-DONE")
+    if not done or done[-1]["lines"] != nlines:
+        raise C.ToolError("escalation trace not consumed")
+    out.add_tlc(res)
+    out.extra["escalated_programs"] = len(plist)
+    kinds = PROPS[prop][1]
+    for m in res.tagged("MISMATCH"):
+        if m["kind"] in kinds:
+            p = variants[m["case"]]
+            v = C.Violation(prop, "enumerated program (escalated) %s variant=%s prog=%s: %s" % (
+                m["kind"], m.get("variant"), C.tree_hex(p["prog"])[:200], json.dumps(m["detail"])[:300]), {"mismatch": m, "input": p})
+            v.signature = "%s:esc:%s:%s" % (prop, m["kind"], C.sha256_str(json.dumps(p, sort_keys=True))[:12])
+            out.violations.append(v)
+    os.remove(inp)
+    os.remove(trace)
+
+
 def check(prop, tier, seed):
     profile, kinds = PROPS[prop]
     out = C.Outcome(prop)
@@ -146,6 +215,12 @@ def check(prop, tier, seed):
                 "RunProgramTest corpus) each run as the variants the property relates; every run is re-executed by the Interp.tla "
                 "machine inside TLC (one state per machine step) and the relations are evaluated by TraceRun.tla on the recorded "
                 "outcomes. A case is non-trivial when the specification decided it (did not abstain)." % profile)
+    if prop in MC_PROPS:
+        mc_part(prop, tier, seed, out)
+        out.rule += (" PLUS MCInterp: a bounded universe of programs (every operator at its arities over boundary alphabets, "
+                     "apply/((X))/improper forms, unknown opcodes, guards with right/wrong/zero/huge costs, depth-2 samples) "
+                     "enumerated by TLC, run as a self-composition of configurations (flags, dialects, budgets C-1/C/C+1) with "
+                     "the properties as invariants; every (program, configuration, budget) is replayed into run_program.")
     out.assumptions = ["cryptographic operator results are taken from recorded witnesses (C32 not applicable)",
                        "runs above the evaluation caps of Ops.tla or %d machine steps are abstained" % 60000]
     return out
